@@ -31,6 +31,7 @@ import (
 	"github.com/NVIDIA/KAI-scheduler/pkg/scheduler/conf_util"
 	"github.com/NVIDIA/KAI-scheduler/pkg/scheduler/framework"
 	"github.com/NVIDIA/KAI-scheduler/pkg/scheduler/plugins"
+	"github.com/NVIDIA/KAI-scheduler/pkg/scheduler/plugins/proportion"
 )
 
 var (
@@ -346,6 +347,7 @@ type CycleRecord struct {
 	FailedPodDeletes  []string
 	Duration          time.Duration
 	ActionCalls       map[string][2]int // action -> [first call index, end)
+	Shares            map[string]QShare // per queue, as reported by the session after OpenSession (Options.CaptureShares)
 }
 
 // Hooks let a check look into the live session.
@@ -354,10 +356,16 @@ type Hooks struct {
 	BeforeClose func(ssn *framework.Session, cycle int)
 }
 
+// QShare is what the session reports for a queue: [cpu milli, memory bytes, gpus].
+type QShare struct {
+	FairShare, Deserved, Allocated [3]float64
+}
+
 // Options of a run.
 type Options struct {
-	Hooks        Hooks
-	CycleTimeout time.Duration // 0 = 30s
+	CaptureShares bool
+	Hooks         Hooks
+	CycleTimeout  time.Duration // 0 = 30s
 }
 
 func schedulerConfig(c *Config) (*conf.SchedulerConfiguration, *conf.SchedulerParams) {
@@ -453,6 +461,17 @@ func RunCycle(s *Store, cfg *Config, sc *CycleScript, idx int, opt *Options) *Cy
 		}
 		func() {
 			defer framework.CloseSession(ssn)
+			if opt != nil && opt.CaptureShares {
+				rec.Shares = map[string]QShare{}
+				// exact numbers from the proportion plugin (Session.QueueFairShare truncates fractional GPUs)
+				for id, qa := range proportion.VerifQueues(framework.VerifPlugin(ssn, "proportion")) {
+					rec.Shares[string(id)] = QShare{
+						FairShare: [3]float64{qa.CPU.FairShare, qa.Memory.FairShare, qa.GPU.FairShare},
+						Deserved:  [3]float64{qa.CPU.Deserved, qa.Memory.Deserved, qa.GPU.Deserved},
+						Allocated: [3]float64{qa.CPU.Allocated, qa.Memory.Allocated, qa.GPU.Allocated},
+					}
+				}
+			}
 			if opt != nil && opt.Hooks.AfterOpen != nil {
 				opt.Hooks.AfterOpen(ssn, idx)
 			}
